@@ -49,6 +49,9 @@ pub unsafe extern "C" fn mmap(addr: *mut c_void, len: size_t, prot: c_int, flags
         }
         return p;
     }
+    if let Some(p) = crate::shmemu::map_object(fd, len, flags, off) {
+        return p;
+    }
     libc::syscall(libc::SYS_mmap, addr, len, prot, flags, fd, off) as *mut c_void
 }
 
@@ -62,6 +65,9 @@ pub unsafe extern "C" fn munmap(addr: *mut c_void, len: size_t) -> c_int {
             s.in_use = false;
             return 0;
         }
+    }
+    if crate::shmemu::is_object_buffer(addr) {
+        return 0;
     }
     libc::syscall(libc::SYS_munmap, addr, len) as c_int
 }
